@@ -85,6 +85,24 @@ def check_frame(case, rec):
         raise Violation("%s.decrypt(encrypt(p)) raised %s: %s   [payload %s, crc %04x, frame %s]" % (name, type(ex).__name__, ex, payload.hex(), crc, frame.hex()))
     if back != payload:
         raise Violation("%s.decrypt(encrypt(p)) = %s, p = %s" % (name, bytes(back).hex(), payload.hex()))
+    # the SAME encryptor object used again: framing must not depend on earlier calls on that object
+    p2 = payload[::-1] + b"\x07" if len(payload) < 253 else payload[:100]
+    try:
+        ct2 = e.encrypt(p2)
+        ct1b = e.encrypt(payload)
+    except Exception as ex:
+        raise Violation("%s: second/third encrypt on the same object raised %s: %s" % (name, type(ex).__name__, ex))
+    if ossl.cbc_decrypt(key, ct2) != M.container_frame(p2):
+        raise Violation("%s: SECOND wrap on the same encryptor object does not decrypt (zero IV) to B|len+2|pad|payload|crc: got frame %s" % (name, ossl.cbc_decrypt(key, ct2).hex()))
+    if ct1b != ct:
+        raise Violation("%s: wrapping the same payload again on the same object gives a different frame" % name)
+    try:
+        if e.decrypt(ct2) != p2 or e.decrypt(ct) != payload:
+            raise Violation("%s: repeated unwrap on the same object returns a different payload" % name)
+    except Violation:
+        raise
+    except Exception as ex:
+        raise Violation("%s: repeated unwrap on the same object raised %s: %s" % (name, type(ex).__name__, ex))
     # a second object with the same key must also open it (no per-object state)
     e2 = B2.ConfigSecurityCodeEncryptor(case["code"]) if case.get("code") is not None else B2.SoftwareCustKeyEncryptor(key)
     try:
